@@ -201,6 +201,7 @@ def write_evidence(ctx, hits, viol):
                 "modules": sorted(m.relpath for m in prog.modules.values()),
                 "functions": len(prog.all_funcs()),
                 "classes": len(list(prog.all_classes())),
+                "normalisation": getattr(ctx, "normalisation", None),
             },
             "known_findings_hit": [f.as_dict() for f in hits],
             "violations": [f.as_dict() for f in viol],
@@ -209,6 +210,8 @@ def write_evidence(ctx, hits, viol):
                 "hand-written model of the Python subset the repository uses (statement CFG, short-circuit "
                 "conditions, explicit raise, name mangling, decorators as wrappers)",
                 "re._parser (stdlib regex parser) for regex syntax trees",
+                "the normalisation pass (sa/inline.py): inlining of private helpers unknown to the rule set and forward substitution "
+                "of access-path locals preserve the meaning of the analysed functions",
             ],
             "checker_cmd": "/venv/bin/python /verif/check %s --tier %s" % (ctx.prop, ctx.tier),
             "exhaustive": False,
